@@ -124,6 +124,23 @@ def run_case(case):
     c.check(s1 == s2, "rescore", f"scoring the same probe objects twice gives {s1!r} then {s2!r}", tags)
     c.close(s2, want, "rescore", "second score of the same probe objects vs reference", tags, scale=scale, rtol=1e-8)
     c.transitions += 2
+    # history: the enrolled factors are updated in place (same array objects) and scored again
+    if case["kind"] == "jfa":
+        y2, z2 = np.array(y, float), np.array(z, float)
+        model2 = (y2, z2)
+        m.score(model2, copy.deepcopy(stats))
+        y2 *= -0.5
+        z2 += 0.25
+        client2 = (um.ravel() + V @ y2 + Dv * z2).reshape(C, D)
+    else:
+        z2 = np.array(z, float)
+        model2 = z2
+        m.score(model2, copy.deepcopy(stats))
+        z2 *= -0.5
+        client2 = (um.ravel() + Dv * z2).reshape(C, D)
+    want2 = ofa.linear_score(client2, um, uv, pooledN, pooledF, pooledT, Ux, True)
+    c.close(float(m.score(model2, copy.deepcopy(stats))), want2, "score_after_model_update", "score after the enrolled factors were updated in place", tags, scale=scale, rtol=1e-8)
+    c.transitions += 2
     # estimate_x / estimate_ux
     ex = np.asarray(m.estimate_x(copy.deepcopy(stats)), float)
     c.close(ex, x, "estimate_x", "estimate_x vs posterior mean given the pooled statistics", tags, rtol=1e-8, scale=1.0)
@@ -147,6 +164,21 @@ def run_case(case):
         for a_, b_ in zip(e_arr if isinstance(e_arr, tuple) else (e_arr,), e_st if isinstance(e_st, tuple) else (e_st,)):
             c.close(np.asarray(a_, float), np.asarray(b_, float), "enroll_using_array", "enroll_using_array vs enroll on the UBM statistics", tags, rtol=1e-10, scale=1.0)
         c.transitions += 3
+        if case["fac"] == 1:
+            # a long recording (2500 frames, deterministic): array-level entry points vs statistics of the whole array
+            base = np.vstack(frames[:3])
+            k_ = np.arange(2500)
+            long_x = base[k_ % len(base)] + ((k_ % 7) - 3.0)[:, None] * 0.125 * s
+            st_long = ubm.acc_stats(long_x)
+            c.close(float(m.score_using_array(model, [long_x.copy()])), float(m.score(model, [st_long])), "score_using_array", "score_using_array on 2500 frames vs score on their statistics", tags,
+                    rtol=1e-9, scale=scale * 1e-3)
+            el, es = m.enroll_using_array(long_x.copy()), m.enroll([st_long])
+            for a_, b_ in zip(el if isinstance(el, tuple) else (el,), es if isinstance(es, tuple) else (es,)):
+                c.close(np.asarray(a_, float), np.asarray(b_, float), "enroll_using_array", "enroll_using_array on 2500 frames vs enroll on their statistics", tags, rtol=1e-9, scale=1.0)
+            if case["kind"] == "isv":
+                c.close(np.asarray(m.transform(long_x.copy()), float), np.asarray(m.estimate_ux([st_long]), float), "transform", "ISVMachine.transform on 2500 frames", tags, rtol=1e-9,
+                        scale=float(np.abs(U).max()) + 1)
+            c.transitions += 5
         if case["kind"] == "isv":
             t = np.asarray(m.transform(arrays[0].copy()), float)
             c.close(t, np.asarray(m.estimate_ux([ubm.acc_stats(arrays[0])]), float), "transform", "ISVMachine.transform(X) vs estimate_ux([acc_stats(X)])", tags,
